@@ -2,7 +2,7 @@
     Statements only; the transition system is that of C01 (Model/Pipeline.v).  [decided] records the
     outcome of handle_select1_or_exit0: Accept (select-1 fires), Abort (exit-0 fires) or Interactive
     (the flags are dropped and the terminal is started). *)
-From SkimV Require Import Common.Base Gen.PipelineOrder Model.PipelineOrder Model.Pipeline Proof.Pipeline Proof.PipelineLive.
+From SkimV Require Import Common.Base Gen.PipelineOrder Model.PipelineOrder Model.Pipeline Model.PipelineAbs Proof.Pipeline Proof.PipelineLive Proof.Fair Proof.PipelineProgress.
 
 (** Whenever a step takes the decision, in any reachable state of any interleaving: the source has
     ended, the reader's buffer has been moved, every pool item has been handed to a matcher, and no
@@ -50,6 +50,25 @@ Theorem c14_idle_is_quiescent : forall nres ncie mp source q0 a b c ls s,
 Proof. exact idle_is_quiescent. Qed.
 Print Assumptions c14_idle_is_quiescent.
 
+
+(** ... and it IS reached: with --select-1, --exit-0 or --sync given, once the source has ended
+    (no command change in flight) every weakly fair execution without keystrokes (see C01,
+    c01_fair_quiescence, for the notions) takes the decision -- which, by c14_decides_on_complete,
+    is the one the complete result dictates. *)
+Theorem c14_decision_is_taken : forall nres ncie mp source q0 a b c ls s0 (sigma : nat -> st) (lam : nat -> option label),
+  run nres ncie mp (init source q0 a b c) ls = Some s0 -> alive s0 = false -> no_cmd (map amop_of (pc s0)) = true ->
+  sigma 0 = s0 -> a || b || c = true ->
+  exec st label (step nres ncie mp) inner sigma lam -> wfair st label (step nres ncie mp) inner sigma lam ->
+  exists t, decided (sigma t) <> None.
+Proof. exact fair_decision. Qed.
+Print Assumptions c14_decision_is_taken.
+
+(** at rest with an option still pending, the decision has been recorded (no reachable state rests undecided) *)
+Theorem c14_rest_decided : forall nres ncie mp source q0 a b c ls s,
+  run nres ncie mp (init source q0 a b c) ls = Some s ->
+  at_rest s = true -> f1 s || f0 s || fsync s = true -> decided s <> None.
+Proof. exact reachable_rest_decided. Qed.
+Print Assumptions c14_rest_decided.
 
 (** the code still has the skeleton the transition system stands for: in the decision, the heartbeat and the threads whose completion it reads, the
     shared-state operations extracted from the Rust sources on this run (Gen/PipelineOrder.v) are
